@@ -69,6 +69,9 @@ def run(cells, irs, fn):
                 raised += 1
                 # an evaluation that raises is out of the contract's domain ("whenever it returns") -- but only if it
                 # already raised on the committed tree: an input that USED to come back and now raises is a violation
+                # only on the seed-independent (exhaustive) part of the domain: interfaces with at most one parameter
+                if not isinstance(ir, dict) or len(ir.get("params") or {}) > 1:
+                    continue
                 h = _raise_hash(cell, ir, what)
                 if RAISE_CTX.get("write"):
                     _NEW_RAISES.add(h)
